@@ -26,7 +26,9 @@ package hash
 import (
 	"errors"
 	"fmt"
+	"hash/fnv"
 	"math"
+	"math/bits"
 	"os"
 	"reflect"
 	"sort"
@@ -60,9 +62,9 @@ type c13Op struct {
 	N int    `json:"n"`           // node index
 	W int    `json:"w,omitempty"` // addw: weight, addr: replicas
 	F bool   `json:"f,omitempty"` // (re-)add with a fresh object of the same identity
-	A int    `json:"a,omitempty"` // 1,2: use another Go representation with the SAME repr (string / *Stringer / []byte), if the node's kind has one
+	A int    `json:"a,omitempty"` // 1,2: use another Go representation with the SAME repr (string / *Stringer / []byte of one name; int / string / []byte of one number), if the node's kind has one
 	P int    `json:"p,omitempty"` // 1..8: for a node of kind 8 the String() call with this (symbolic) number made during the operation panics; the caller recovers and retries Remove
-	U bool   `json:"u,omitempty"` // UNSPECIFIED setting (negative, or a weight whose product with the replicas overflows): only as the last op, run for panics / hangs only
+	U bool   `json:"u,omitempty"` // setting whose virtual-node count the statement does not determine (negative weight / replicas, or a weight whose product with the replicas overflows); derived from W by the interpreter, the flag is informative. May occur anywhere in a history: the node's OWN share is not judged, every other clause is
 }
 
 type c13Case struct {
@@ -73,6 +75,8 @@ type c13Case struct {
 	Neg   int     `json:"neg,omitempty"`   // != 0: NewCustomConsistentHash(Neg, fn) with a negative replica count (clamped like any value < 100)
 	Twin  bool    `json:"twin,omitempty"`  // a second ring with other replicas lives in the same process, gets every other op and shares the node objects
 	PK    bool    `json:"pk,omitempty"`    // after every op a key whose String() panics is looked up; every call runs under a watchdog
+	HF    int     `json:"hf,omitempty"`    // custom hash function (needs R >= 0): 0 none; 1..5 well distributed (Hash^K, Hash*oddK, bit-reversed Hash, FNV-1a 64, Hash of salted input); 6 generated ring layout (table: vnode label -> position at the uint64 boundaries / adjacent positions, keys on / next to positions); 10..14 badly distributed (16-bit, constant, length, 8-bit, first byte): run for panics and hangs only
+	HK    int     `json:"hk,omitempty"`    // parameter of the custom hash function (constant / salt / layout number)
 	KS    int     `json:"ks"`              // probe key seed
 	NK    int     `json:"nk"`              // number of probe keys
 	Ops   []c13Op `json:"ops"`
@@ -203,8 +207,15 @@ func c13Name(c c13Case, idx int) string {
 // i.e. they are the same node; alt rotates among them.
 var c13Alias = []int{0, 2, 6}
 
+// c13AliasInt: an int node, the string and the []byte of its decimal form have
+// the same repr as well (second alias family).
+var c13AliasInt = []int{4, 0, 6}
+
 func c13KindOf(c c13Case, idx, alt int) int {
 	k := c.Kinds[idx]
+	if k == 4 {
+		return c13AliasInt[alt%len(c13AliasInt)]
+	}
 	for p, a := range c13Alias {
 		if a == k {
 			return c13Alias[(p+alt)%len(c13Alias)]
@@ -315,6 +326,11 @@ type c13SKey string
 
 func (k c13SKey) String() string { return "skey<" + string(k) + ">" }
 
+// c13VErr: an error type with a value receiver (lang.Repr takes its Error()).
+type c13VErr string
+
+func (e c13VErr) Error() string { return "c13 error value: " + string(e) }
+
 // c13PanicKey: a key whose String() panics (user code failing inside Get).
 type c13PanicKey struct{}
 
@@ -337,7 +353,12 @@ func c13Keys(seed, n int) []any {
 		case 2:
 			keys[i] = c13Key{S: "order", N: seed + i}
 		case 3:
-			keys[i] = &c13Key{S: "p", N: seed ^ i}
+			if i%2 == 0 {
+				keys[i] = &c13Key{S: "p", N: seed ^ i}
+			} else { // pointer to a pointer that implements Stringer
+				pp := &c13Stringer{addr: "pp:" + strconv.Itoa(seed^i)}
+				keys[i] = &pp
+			}
 		case 4:
 			if i%2 == 0 {
 				keys[i] = nil
@@ -347,7 +368,11 @@ func c13Keys(seed, n int) []any {
 		case 5:
 			keys[i] = []byte("bytes:" + strconv.Itoa(seed+i))
 		case 6:
-			keys[i] = fmt.Errorf("err %d: %w", seed+i, errC13Key)
+			if i%2 == 0 {
+				keys[i] = fmt.Errorf("err %d: %w", seed+i, errC13Key)
+			} else { // an error type with a value receiver
+				keys[i] = c13VErr("verr " + strconv.Itoa(seed+i))
+			}
 		case 7:
 			keys[i] = c13SKey(strconv.Itoa(seed * i))
 		case 8:
@@ -355,7 +380,8 @@ func c13Keys(seed, n int) []any {
 		case 9:
 			keys[i] = c13Tagged{Addr: "k", ID: seed + i, Tags: []string{strconv.Itoa(i)}}
 		case 10:
-			mags := []any{uint64(1<<63 + uint64(i)), int64(math.MinInt64 + int64(i)), int64(1<<53 + int64(i)), uint32(1<<32 - 1 - uint32(i%7)), int16(-1<<15 + int16(i%5)), uint8(255 - i%3), true}
+			mags := []any{uint64(1<<63 + uint64(i)), int64(math.MinInt64 + int64(i)), int64(1<<53 + int64(i)), uint32(1<<32 - 1 - uint32(i%7)), int16(-1<<15 + int16(i%5)), uint8(255 - i%3), true,
+				float32(seed%1000) + float32(i%8)/8, int8(-128 + i%7), int32(math.MinInt32 + i), uint(1<<63 + uint(i)), uint16(65535 - i%9)}
 			keys[i] = mags[(seed+i)%len(mags)]
 		case 11:
 			specials := []string{"", "%s%d%!v", "k\x00" + strconv.Itoa(i), "\xff\xfe" + strconv.Itoa(seed), "键-" + strconv.Itoa(i), " lead " + strconv.Itoa(i) + " ", "*?[a-z]{1,2}$(x)`y`"}
@@ -432,13 +458,165 @@ func c13New(c c13Case) *ConsistentHash {
 	if c.NilFn {
 		fn = nil
 	}
+	if c.HF != 0 {
+		fn = c13HashFn(c)
+	}
 	if c.Neg != 0 {
 		return NewCustomConsistentHash(c.Neg, fn)
 	}
-	if c.R < 0 {
+	if c.R < 0 && c.HF == 0 {
 		return NewConsistentHash()
 	}
 	return NewCustomConsistentHash(c.R, fn)
+}
+
+// ------------------------------------------------------ custom hash functions
+//
+// The statement quantifies over the default hash function. A ring treats the
+// function as an opaque map from byte strings to uint64, so every ring built
+// with an INJECTIVE custom function (on the labels used) is a ring layout the
+// default function produces for some other node names; on such rings all
+// structural clauses are judged (not the balance clause, except for bijections
+// of the default function, which keep its distribution). Functions that map
+// different labels onto one position (classes 10..14) put the ring outside the
+// claim (position collisions): they are run for panics and hangs only.
+
+func c13Mix(x uint64) uint64 {
+	x += 0x9E3779B97F4A7C15
+	x = (x ^ (x >> 30)) * 0xBF58476D1CE4E5B9
+	x = (x ^ (x >> 27)) * 0x94D049BB133111EB
+	return x ^ (x >> 31)
+}
+
+func c13WeakHash(c c13Case) bool { return c.HF >= 10 }
+
+func c13HashFn(c c13Case) Func {
+	k := c13Mix(uint64(c.HK))
+	switch c.HF {
+	case 1:
+		return func(d []byte) uint64 { return Hash(d) ^ k }
+	case 2:
+		return func(d []byte) uint64 { return Hash(d) * (k | 1) }
+	case 3:
+		return func(d []byte) uint64 { return bits.Reverse64(Hash(d)) }
+	case 4:
+		return func(d []byte) uint64 {
+			f := fnv.New64a()
+			_, _ = f.Write(d)
+			return f.Sum64()
+		}
+	case 5:
+		salt := strconv.Itoa(c.HK) + "/"
+		return func(d []byte) uint64 { return Hash(append([]byte(salt), d...)) }
+	case 6:
+		return c13LayoutFn(c)
+	case 10:
+		return func(d []byte) uint64 { return Hash(d) & 0xffff }
+	case 11:
+		return func(d []byte) uint64 { return k }
+	case 12:
+		return func(d []byte) uint64 { return uint64(len(d)) }
+	case 13:
+		return func(d []byte) uint64 { return Hash(d) >> 56 }
+	case 14:
+		return func(d []byte) uint64 {
+			if len(d) == 0 {
+				return 0
+			}
+			return uint64(d[0])
+		}
+	}
+	return Hash
+}
+
+// c13LayoutFn: a hash function given by a table. Every virtual-node label of
+// the case's nodes (repr + index, as many indices as the largest ring of the
+// case uses) gets its own position; the positions follow one of six generated
+// layouts: adjacent integers from 0, adjacent integers up to MaxUint64, adjacent
+// integers around 2^63 and around 2^32, evenly spread from 0, odd numbers from
+// 3 (gaps of one). Which label gets which position is decided by the order of
+// the default hashes, so the nodes interleave as on an ordinary ring. Every
+// other input (the probe keys) is sent onto a position, next to one, to 0, to
+// MaxUint64, just below the lowest or just above the highest position, or to
+// its default hash. The function is deterministic and injective on the labels.
+var c13LayoutMemo = map[string]Func{}
+
+func c13LayoutFn(c c13Case) Func {
+	memo := fmt.Sprint(c.R, c.Neg, c.Style, c.Kinds, c.HK)
+	if fn, ok := c13LayoutMemo[memo]; ok {
+		return fn
+	}
+	if len(c13LayoutMemo) > 16 {
+		c13LayoutMemo = map[string]Func{}
+	}
+	per := c13EffR(c) + 37 + 3 // the twin ring has 37 replicas more
+	seen := map[string]bool{}
+	var labels []string
+	for idx := range c.Kinds {
+		r := c13Name(c, idx)
+		if k := c.Kinds[idx]; k != 8 { // kind 8 counts its String() calls; its repr is the name
+			r = repr(c13MakeNode(c, idx, 0, 0))
+		}
+		for i := 0; i < per; i++ {
+			if l := r + strconv.Itoa(i); !seen[l] {
+				seen[l] = true
+				labels = append(labels, l)
+			}
+		}
+	}
+	sort.Slice(labels, func(i, j int) bool {
+		a, b := Hash([]byte(labels[i])), Hash([]byte(labels[j]))
+		if a != b {
+			return a < b
+		}
+		return labels[i] < labels[j]
+	})
+	n := uint64(len(labels))
+	pos := make([]uint64, n)
+	table := make(map[string]uint64, n)
+	for j := uint64(0); j < n; j++ {
+		switch c.HK % 6 {
+		case 0:
+			pos[j] = j
+		case 1:
+			pos[j] = math.MaxUint64 - (n - 1) + j
+		case 2:
+			pos[j] = 1<<63 - n/2 + j
+		case 3:
+			pos[j] = 1<<32 - n/2 + j
+		case 4:
+			pos[j] = j * (math.MaxUint64 / n)
+		default:
+			pos[j] = 3 + 2*j
+		}
+		table[labels[j]] = pos[j]
+	}
+	fn := func(d []byte) uint64 {
+		if p, ok := table[string(d)]; ok {
+			return p
+		}
+		h := Hash(d)
+		p := pos[(h>>8)%n]
+		switch h % 8 {
+		case 0:
+			return p
+		case 1:
+			return p + 1
+		case 2:
+			return p - 1
+		case 3:
+			return 0
+		case 4:
+			return math.MaxUint64
+		case 5:
+			return pos[0] - 1
+		case 6:
+			return pos[n-1] + 1
+		}
+		return h
+	}
+	c13LayoutMemo[memo] = fn
+	return fn
 }
 
 // c13TwinCase: the configuration of the second ring of a Twin case.
@@ -573,29 +751,72 @@ func c13ForeignPositions(h *ConsistentHash, obj any, ident func(any) int, idx in
 
 type c13State struct {
 	present  bool
-	positive bool // last setting has weight / replicas > 0
+	positive bool // last setting has weight / replicas > 0 and its virtual-node count is determined
+	unknown  bool // last setting is negative or overflows: whether the node receives keys is not determined
 	op       c13Op
 	obj      any
 	lo, hi   int // admissible number of virtual nodes (white box rule)
 }
 
+func c13StateOf(o c13Op, obj any, effR int) c13State {
+	pos, unk, lo, hi := c13Setting(o, effR)
+	return c13State{present: true, positive: pos, unknown: unk, op: o, obj: obj, lo: lo, hi: hi}
+}
+
+// c13Presence: definite = a node of positive weight is present; maybe = a node
+// with an undetermined (negative / overflowing) setting is present.
+func c13Presence(st []c13State) (definite, maybe bool) {
+	for _, s := range st {
+		definite = definite || (s.present && s.positive)
+		maybe = maybe || (s.present && s.unknown)
+	}
+	return
+}
+
+// c13JudgeMember: the membership clause for one lookup result. Get is ok iff a
+// node of positive weight is present (either answer while only nodes with an
+// undetermined setting could own virtual nodes), and an ok answer is a present
+// node that was not added with weight 0.
+func c13JudgeMember(st []c13State, a c13Res, definite, maybe bool) string {
+	switch {
+	case a.idx == -1:
+		if definite {
+			return "reports absence although a node of positive weight is present"
+		}
+		return ""
+	case !definite && !maybe:
+		return fmt.Sprintf("returned node %d (%v) although no node of positive weight is present", a.idx, a.obj)
+	case a.idx < 0 || !st[a.idx].present:
+		return fmt.Sprintf("returned %v, which is not a currently added node", a.obj)
+	case !st[a.idx].positive && !st[a.idx].unknown:
+		return fmt.Sprintf("returned node %d, which was added with weight 0", a.idx)
+	}
+	return ""
+}
+
 // c13Setting: model of one add-like op, from the statement and the API docs.
-func c13Setting(o c13Op, effR int) (positive bool, lo, hi int) {
+// unknown: the statement does not determine how many virtual nodes a negative
+// weight / replica count or a weight whose product with the replicas overflows
+// gives (0..effR are all admissible, so is receiving keys or not).
+func c13Setting(o c13Op, effR int) (positive, unknown bool, lo, hi int) {
 	switch o.K {
 	case "add":
-		return true, effR, effR
+		return true, false, effR, effR
 	case "addr":
+		if o.W < 0 {
+			return false, true, 0, effR
+		}
 		r := o.W
 		if r > effR {
 			r = effR
 		}
-		if r < 0 {
-			r = 0
-		}
-		return r > 0, r, r
+		return r > 0, false, r, r
 	default: // addw: weight is a percentage of the default replicas, capped
-		if o.W <= 0 {
-			return false, 0, 0
+		if o.W == 0 {
+			return false, false, 0, 0
+		}
+		if o.W < 0 || o.W > math.MaxInt64/effR {
+			return false, true, 0, effR
 		}
 		x := effR * o.W
 		lo, hi = x/100, (x+99)/100
@@ -608,7 +829,7 @@ func c13Setting(o c13Op, effR int) (positive bool, lo, hi int) {
 		if hi > effR {
 			hi = effR
 		}
-		return true, lo, hi
+		return true, false, lo, hi
 	}
 }
 
@@ -624,11 +845,20 @@ func c13Interp(c c13Case) (v kit.Verdict) {
 			v.Known = c13KnownID
 		}
 	}()
+	if c13WeakHash(c) {
+		return c13WeakInterp(c)
+	}
 	nn := len(c.Kinds)
 	effR := c13EffR(c)
 	ident := c13Ident(c)
 	keys := c13Keys(c.KS, c.NK)
 	c13Ctls = map[int]*c13FlakyCtl{}
+	switch {
+	case c.HF == 6:
+		classes["hash:layout-"+strconv.Itoa(c.HK%6)] = true
+	case c.HF != 0:
+		classes["hash:custom-"+strconv.Itoa(c.HF)] = true
+	}
 	if c13CollideOK { // keys colliding under Hash, and keys that ARE virtual-node labels (hash == a ring position)
 		for _, p := range c13Collide {
 			keys = append(keys, p[0], p[1])
@@ -684,21 +914,27 @@ func c13Interp(c c13Case) (v kit.Verdict) {
 			obj = c13MakeNode(c, o.N, i, o.A)
 			if c13KindOf(c, o.N, o.A) != c.Kinds[o.N] {
 				classes["alias-representation"] = true
+				if c.Kinds[o.N] == 4 {
+					classes["alias-representation:int-string-bytes"] = true
+				}
 			}
 		}
 		if !excluded && prev.present && c13ForeignPositions(h, obj, ident, o.N) > 0 {
 			tainted = true
 			classes["foreign-position-trigger"] = true
 		}
-		if o.U { // UNSPECIFIED setting: panics and hangs only, nothing is judged afterwards
-			classes["unspecified-setting"] = true
-			if pan := c13Guard(func() string { return c13Apply(h, o, obj) }); pan != "" {
-				return v.Failf("%s: %s", what, pan)
+		if _, unk, _, _ := c13Setting(o, effR); unk && o.K != "rm" {
+			// negative / overflowing setting: the node's OWN virtual-node count is not determined
+			// (0..replicas), everything else is judged as for any other operation
+			what += " [setting not determined by the statement]"
+			if o.W < 0 {
+				classes["setting:negative"] = true
+			} else {
+				classes["setting:overflow"] = true
 			}
-			if _, pan := c13Lookup(h, keys, ident); pan != "" {
-				return v.Failf("%s: Get panicked afterwards: %s", what, pan)
+			if i < len(c.Ops)-1 {
+				classes["setting:undetermined-mid-history"] = true
 			}
-			return v
 		}
 		armed := o.P > 0 && c.Kinds[o.N] == 8
 		if armed {
@@ -750,7 +986,7 @@ func c13Interp(c c13Case) (v kit.Verdict) {
 						if !prev.present && o.K == "rm" {
 							return v.Failf("%s: after the recovered panic Get(%s) returned node %d, which was not a member", what, c13Show(keys[k]), a.idx)
 						}
-					case a.idx < 0 || !st[a.idx].present || !st[a.idx].positive || !c13Same(a.obj, st[a.idx].obj):
+					case a.idx < 0 || !st[a.idx].present || !(st[a.idx].positive || st[a.idx].unknown) || !c13Same(a.obj, st[a.idx].obj):
 						return v.Failf("%s: after the recovered panic Get(%s) returned %v, not a currently added node", what, c13Show(keys[k]), a.obj)
 					}
 				}
@@ -766,8 +1002,7 @@ func c13Interp(c c13Case) (v kit.Verdict) {
 			if o.K == "rm" {
 				st2[o.N] = c13State{}
 			} else {
-				pos, lo, hi := c13Setting(o, c13EffR(tc))
-				st2[o.N] = c13State{present: true, positive: pos, op: o, obj: obj, lo: lo, hi: hi}
+				st2[o.N] = c13StateOf(o, obj, c13EffR(tc))
 			}
 		}
 		if c.PK && pan == "" { // user code panicking inside Get must not leave the ring locked
@@ -787,8 +1022,7 @@ func c13Interp(c c13Case) (v kit.Verdict) {
 			if o.K == "rm" {
 				st[o.N] = c13State{}
 			} else {
-				pos, lo, hi := c13Setting(o, effR)
-				st[o.N] = c13State{present: true, positive: pos, op: o, obj: obj, lo: lo, hi: hi}
+				st[o.N] = c13StateOf(o, obj, effR)
 			}
 			if f := c13Membership(h, st, keys, ident, what+" (ring with colliding positions)"); f != "" {
 				return v.Failf("%s", f)
@@ -808,17 +1042,20 @@ func c13Interp(c c13Case) (v kit.Verdict) {
 				classes["rm-absent"] = true
 			}
 		} else {
-			pos, lo, hi := c13Setting(o, effR)
-			st[o.N] = c13State{present: true, positive: pos, op: o, obj: obj, lo: lo, hi: hi}
+			st[o.N] = c13StateOf(o, obj, effR)
+			pos, unk, lo, hi := st[o.N].positive, st[o.N].unknown, st[o.N].lo, st[o.N].hi
 			switch {
 			case !prev.present:
 				classes["first-add"] = true
 			case prev.lo != lo || prev.hi != hi:
 				classes["readd-changed"] = true
+				if unk && prev.positive {
+					classes["readd-undetermined-over-positive"] = true
+				}
 			default:
 				classes["readd-same"] = true
 			}
-			if !pos {
+			if !pos && !unk {
 				classes["zero-weight"] = true
 			}
 			if (o.K == "addr" && o.W > effR) || (o.K == "addw" && o.W > 100) {
@@ -827,17 +1064,17 @@ func c13Interp(c c13Case) (v kit.Verdict) {
 			classes["kind:"+strconv.Itoa(c.Kinds[o.N])] = true
 		}
 		others := 0
-		anyPositive := false
 		for j, s := range st {
-			if s.present && s.positive {
-				anyPositive = true
-				if j != o.N {
-					others++
-				}
+			if s.present && s.positive && j != o.N {
+				others++
 			}
 		}
+		anyPositive, maybe := c13Presence(st)
 		// white box: collisions are outside the claim
 		counts, collision, foreign, nkeys := c13Inspect(h, ident, nn)
+		if c.HF != 0 && c13SelfDup > 0 { // a custom function sent two labels of one node onto one position
+			collision = true
+		}
 		if collision {
 			excluded = true
 			v.Excluded = true
@@ -866,21 +1103,14 @@ func c13Interp(c c13Case) (v kit.Verdict) {
 				return v.Failf("%s: Get(%s) returned node %d then node %d with unchanged membership", what, c13Show(keys[k]), a.idx, again[k].idx)
 			}
 			// totality
-			if !anyPositive {
-				if a.idx != -1 {
-					return v.Failf("%s: no node of positive weight is present but Get(%s) returned node %d (%v)", what, c13Show(keys[k]), a.idx, a.obj)
-				}
-			} else {
-				switch {
-				case a.idx == -1:
-					return v.Failf("%s: Get(%s) reports absence although a node of positive weight is present", what, c13Show(keys[k]))
-				case a.idx < 0 || !st[a.idx].present:
-					return v.Failf("%s: Get(%s) returned %v, which is not a currently added node", what, c13Show(keys[k]), a.obj)
-				case !st[a.idx].positive:
-					return v.Failf("%s: Get(%s) returned node %d, which was added with weight 0", what, c13Show(keys[k]), a.idx)
-				case !c13Same(a.obj, st[a.idx].obj):
-					return v.Failf("%s: Get(%s) returned a replaced object of node %d (%#v), not the one added last (%#v)", what, c13Show(keys[k]), a.idx, a.obj, st[a.idx].obj)
-				}
+			if f := c13JudgeMember(st, a, anyPositive, maybe); f != "" {
+				return v.Failf("%s: Get(%s) %s", what, c13Show(keys[k]), f)
+			}
+			if a.idx >= 0 && !c13Same(a.obj, st[a.idx].obj) {
+				return v.Failf("%s: Get(%s) returned a replaced object of node %d (%#v), not the one added last (%#v)", what, c13Show(keys[k]), a.idx, a.obj, st[a.idx].obj)
+			}
+			if a.idx >= 0 && st[a.idx].unknown {
+				classes["undetermined-node-holds-keys"] = true
 			}
 			// minimal disruption
 			if a.idx != b.idx {
@@ -909,7 +1139,9 @@ func c13Interp(c c13Case) (v kit.Verdict) {
 			for _, s := range st {
 				present = present || s.present
 			}
-			if present {
+			if maybe {
+				classes["only-undetermined-or-zero"] = true
+			} else if present {
 				classes["only-zero-weight"] = true
 			} else if i > 0 {
 				classes["emptied"] = true
@@ -970,6 +1202,63 @@ func c13Interp(c c13Case) (v kit.Verdict) {
 	return v
 }
 
+// c13WeakInterp: rings with a badly distributed custom hash function (many
+// labels on one position, also labels of ONE node). Outside the claim (custom
+// function, position collisions): every operation and every lookup is run under
+// the watchdog for panics and hangs only. What the membership clause would say
+// is recorded as a class ("observed:..."), never as a verdict.
+func c13WeakInterp(c c13Case) (v kit.Verdict) {
+	classes := map[string]bool{"hash:weak-" + strconv.Itoa(c.HF): true}
+	defer func() {
+		for k := range classes {
+			v.Classes = append(v.Classes, k)
+		}
+		sort.Strings(v.Classes)
+	}()
+	v.Excluded = true
+	nn := len(c.Kinds)
+	effR := c13EffR(c)
+	ident := c13Ident(c)
+	keys := c13Keys(c.KS, c.NK)
+	c13Ctls = map[int]*c13FlakyCtl{}
+	h := c13New(c)
+	st := make([]c13State, nn)
+	for i, o := range c.Ops {
+		what := fmt.Sprintf("weak hash function %d: op %d %s(node %d, %d)", c.HF, i, o.K, o.N, o.W)
+		obj := st[o.N].obj
+		if obj == nil || (o.F && o.K != "rm") || c13KindOf(c, o.N, o.A) != c.Kinds[o.N] {
+			obj = c13MakeNode(c, o.N, i, o.A)
+		}
+		if pan := c13Guard(func() string { return c13Apply(h, o, obj) }); pan != "" {
+			return v.Failf("%s: %s", what, pan)
+		}
+		if o.K == "rm" {
+			st[o.N] = c13State{}
+		} else {
+			st[o.N] = c13StateOf(o, obj, effR)
+		}
+		var res []c13Res
+		if pan := c13Guard(func() (pan string) { res, pan = c13Lookup(h, keys, ident); return }); pan != "" {
+			return v.Failf("%s: Get afterwards: %s", what, pan)
+		}
+		definite, maybe := c13Presence(st)
+		for _, a := range res {
+			switch {
+			case a.idx == -1 && definite:
+				classes["observed:absence-with-positive-node-present"] = true
+			case a.idx == -1:
+			case !definite && !maybe:
+				classes["observed:node-returned-without-positive-node"] = true
+			case a.idx < 0 || !st[a.idx].present:
+				classes["observed:non-member-returned"] = true
+			case !st[a.idx].positive && !st[a.idx].unknown:
+				classes["observed:zero-weight-node-returned"] = true
+			}
+		}
+	}
+	return v
+}
+
 // c13Membership: the membership clauses only (used while two nodes share a ring
 // position): Get is ok iff a node of positive weight is present, and then
 // returns a present node of positive weight.
@@ -978,19 +1267,10 @@ func c13Membership(h *ConsistentHash, st []c13State, keys []any, ident func(any)
 	if pan != "" {
 		return fmt.Sprintf("%s: Get panicked: %s", what, pan)
 	}
-	anyPositive := false
-	for _, s := range st {
-		anyPositive = anyPositive || (s.present && s.positive)
-	}
+	definite, maybe := c13Presence(st)
 	for k, a := range got {
-		switch {
-		case !anyPositive && a.idx != -1:
-			return fmt.Sprintf("%s: no node of positive weight is present but Get(%s) returned node %d", what, c13Show(keys[k]), a.idx)
-		case !anyPositive:
-		case a.idx == -1:
-			return fmt.Sprintf("%s: Get(%s) reports absence although a node of positive weight is present", what, c13Show(keys[k]))
-		case a.idx < 0 || !st[a.idx].present || !st[a.idx].positive:
-			return fmt.Sprintf("%s: Get(%s) returned %v, which is not a currently added node of positive weight", what, c13Show(keys[k]), a.obj)
+		if f := c13JudgeMember(st, a, definite, maybe); f != "" {
+			return fmt.Sprintf("%s: Get(%s) %s", what, c13Show(keys[k]), f)
 		}
 	}
 	return ""
@@ -1010,11 +1290,10 @@ func c13Checkpoint(c c13Case, h *ConsistentHash, st []c13State, keys []any, iden
 	if pan != "" {
 		return fmt.Sprintf("%s: Get panicked: %s", what, pan)
 	}
-	anyPositive := false
+	anyPositive, maybe := c13Presence(st)
 	fresh := c13New(c)
 	for _, s := range st {
 		if s.present {
-			anyPositive = anyPositive || s.positive
 			if pan := c13Apply(fresh, s.op, s.obj); pan != "" {
 				return fmt.Sprintf("%s: rebuilding the membership on a fresh ring panicked: %s", what, pan)
 			}
@@ -1025,15 +1304,10 @@ func c13Checkpoint(c c13Case, h *ConsistentHash, st []c13State, keys []any, iden
 		return fmt.Sprintf("%s: Get on a fresh ring panicked: %s", what, pan)
 	}
 	for k, a := range got {
-		switch {
-		case !anyPositive && a.idx != -1:
-			return fmt.Sprintf("%s: no node of positive weight is present but Get(%s) returned node %d", what, c13Show(keys[k]), a.idx)
-		case !anyPositive:
-		case a.idx == -1:
-			return fmt.Sprintf("%s: Get(%s) reports absence although a node of positive weight is present", what, c13Show(keys[k]))
-		case a.idx < 0 || !st[a.idx].present || !st[a.idx].positive:
-			return fmt.Sprintf("%s: Get(%s) returned %v, which is not a currently added node of positive weight", what, c13Show(keys[k]), a.obj)
-		case !c13Same(a.obj, st[a.idx].obj):
+		if f := c13JudgeMember(st, a, anyPositive, maybe); f != "" {
+			return fmt.Sprintf("%s: Get(%s) %s", what, c13Show(keys[k]), f)
+		}
+		if a.idx >= 0 && !c13Same(a.obj, st[a.idx].obj) {
 			return fmt.Sprintf("%s: Get(%s) returned a replaced object of node %d", what, c13Show(keys[k]), a.idx)
 		}
 		if want[k].idx != a.idx {
@@ -1119,9 +1393,9 @@ func c13ChurnInterp(cc c13ChurnCase) (v kit.Verdict) {
 			case 3, 4:
 				o.K = "add"
 			case 5, 6:
-				o.K, o.W = "addw", []int{0, 1, 33, 50, 100, 101}[next(6)]
+				o.K, o.W = "addw", []int{0, 1, 33, 50, 100, 101, -7}[next(7)]
 			default:
-				o.K, o.W = "addr", next(effR+5)
+				o.K, o.W = "addr", next(effR+6)-1
 			}
 			obj := st[o.N].obj
 			if obj == nil || next(3) == 0 {
@@ -1133,8 +1407,7 @@ func c13ChurnInterp(cc c13ChurnCase) (v kit.Verdict) {
 			if o.K == "rm" {
 				st[o.N] = c13State{}
 			} else {
-				pos, lo, hi := c13Setting(o, effR)
-				st[o.N] = c13State{present: true, positive: pos, op: o, obj: obj, lo: lo, hi: hi}
+				st[o.N] = c13StateOf(o, obj, effR)
 			}
 			total++
 			if cc.Per > 0 && total <= 20000 { // every probe rebuilds a fresh ring: bounded
@@ -1236,11 +1509,13 @@ func c13GenOp(rt *rapid.T, nn, effR int, present []bool) c13Op {
 	switch o.K {
 	case "addw":
 		switch {
-		case sel == 0:
-			o.W = 0
-		case sel == 1: // above 100 %: capped (no overflow: replicas <= 300 here)
+		case sel == 0: // zero, or (one in two) negative: the node's own share is then not determined
+			o.W = rapid.SampledFrom([]int{0, 0, 0, 0, -1, -1, -50, -100, -101, math.MinInt64}).Draw(rt, "w0")
+			o.U = o.W < 0
+		case sel == 1: // above 100 %: capped; the last four overflow when multiplied with the replicas (not determined)
 			if rapid.Bool().Draw(rt, "wbig") {
-				o.W = rapid.SampledFrom([]int{127, 128, 129, 255, 256, 257, 32767, 32768, 65535, 65536, 65537, 1<<31 - 1, 1 << 31, 1 << 32, 1000000007}).Draw(rt, "w")
+				o.W = rapid.SampledFrom([]int{127, 128, 129, 255, 256, 257, 32767, 32768, 65535, 65536, 65537, 1<<31 - 1, 1 << 31, 1 << 32, 1000000007, math.MaxInt64/300 - 1, math.MaxInt64/100 + 1, 1 << 62, 1<<62 + 12345, math.MaxInt64}).Draw(rt, "w")
+				o.U = o.W > math.MaxInt64/effR
 			} else {
 				o.W = rapid.IntRange(101, 130).Draw(rt, "w")
 			}
@@ -1252,7 +1527,8 @@ func c13GenOp(rt *rapid.T, nn, effR int, present []bool) c13Op {
 	case "addr":
 		switch {
 		case sel == 0:
-			o.W = 0
+			o.W = rapid.SampledFrom([]int{0, 0, 0, 0, -1, -1, -2, -100, math.MinInt32, math.MinInt64}).Draw(rt, "w0")
+			o.U = o.W < 0
 		case sel <= 2: // at or above the cap
 			if rapid.Bool().Draw(rt, "rbig") {
 				o.W = rapid.SampledFrom([]int{32768, 65535, 65536, 65537, 1<<31 - 1, 1 << 31, 1<<32 + 1, 1 << 53, math.MaxInt64 - 1, math.MaxInt64}).Draw(rt, "w")
@@ -1294,6 +1570,24 @@ func c13Gen(rt *rapid.T) c13Case {
 	if rapid.IntRange(0, 19).Draw(rt, "negr") == 0 {
 		c.R, c.Neg = 50, rapid.SampledFrom([]int{-1, -100, math.MinInt64, math.MinInt32}).Draw(rt, "neg")
 	}
+	switch rapid.Uint64().Draw(rt, "hf") % 20 { // custom hash function (rapid favours small values: the special classes sit on the large residues)
+	case 15, 16:
+		c.HF = 1 + int(rapid.Uint64().Draw(rt, "hfu")%5)
+	case 17, 18:
+		c.HF = 6
+		if c.Style == 4 { // 1 KiB names would make the label table large
+			c.Style = 2
+		}
+	case 19:
+		c.HF = 10 + int(rapid.Uint64().Draw(rt, "hfw")%5)
+	}
+	if c.HF != 0 {
+		c.HK = int(rapid.Uint64().Draw(rt, "hk") % (1 << 16))
+		c.NilFn = false
+		if c.R < 0 {
+			c.R = rapid.IntRange(100, 300).Draw(rt, "hr")
+		}
+	}
 	c.Twin = rapid.IntRange(0, 5).Draw(rt, "twin") == 0
 	c.PK = rapid.IntRange(0, 9).Draw(rt, "pk") == 0
 	nn := rapid.SampledFrom([]int{1, 2, 3, 3, 4, 4, 5, 5, 6, 6}).Draw(rt, "nodes")
@@ -1316,7 +1610,7 @@ func c13Gen(rt *rapid.T) c13Case {
 		}
 		c.Ops = append(c.Ops, o)
 	}
-	// UNSPECIFIED settings (negative; weight*replicas overflowing int64): last op only
+	// a setting the statement does not determine (negative; weight*replicas overflowing int64) as the last op
 	if rapid.IntRange(0, 9).Draw(rt, "unspec") == 0 {
 		o := c13Op{N: rapid.IntRange(0, nn-1).Draw(rt, "un"), U: true}
 		if rapid.Bool().Draw(rt, "uk") {
@@ -1468,6 +1762,9 @@ func c13BalInterp(c c13Case) (v kit.Verdict) {
 	effR := float64(c13EffR(c))
 	ident := c13Ident(c)
 	h := c13New(c)
+	if c.HF != 0 {
+		classes["hash:custom-"+strconv.Itoa(c.HF)] = true
+	}
 	type bal struct {
 		present bool
 		k       float64 // weight in virtual nodes (real valued: no rounding rule assumed)
@@ -1624,6 +1921,14 @@ func c13BalGen(rt *rapid.T) c13Case {
 		c.R = rapid.SampledFrom([]int{100000, 131072}).Draw(rt, "hr")
 	}
 	c.NilFn = rapid.Bool().Draw(rt, "nilfn")
+	// one case in three: a custom hash function that is a bijection of the default one
+	// (xor / odd multiplier / bit reversal) or the default one on salted input: the
+	// idealisation (independent uniform positions) is the same as for the default function
+	if rapid.IntRange(0, 2).Draw(rt, "hf") == 0 {
+		c.HF = rapid.SampledFrom([]int{1, 2, 3, 5}).Draw(rt, "hfk")
+		c.HK = rapid.IntRange(0, 1<<16).Draw(rt, "hk")
+		c.NilFn = false
+	}
 	c.Style = rapid.IntRange(0, 2).Draw(rt, "style")
 	nn := rapid.IntRange(2, 5).Draw(rt, "nodes")
 	if huge {
